@@ -3,6 +3,7 @@ package main
 import (
 	"fmt"
 	"github.com/jcmturner/gofork/encoding/asn1"
+	"strings"
 	"time"
 	"verif/harness/props/c01b"
 
@@ -230,7 +231,12 @@ func c01(c *Ctx) {
 			// model: replay cache now holds the authenticator
 			sec := r.ctime.Truncate(time.Second)
 			ctus := sec.Unix()*1000000 + int64(r.ctime.Sub(sec)/time.Microsecond)
-			rc := jv.L(jv.L(jv.S(joinSlash(r.authCName)), jv.I(ctus), jv.Strs(r.tktSName)))
+			// the cache remembers the authenticator for the principal whose key decrypted the ticket
+			effS := r.tktSName
+			if ss.override {
+				effS = s.sname
+			}
+			rc := jv.L(jv.L(jv.S(joinSlash(r.authCName)), jv.I(ctus), jv.Strs(effS)))
 			in2 := jv.L(jst, projKeytab(s.kt, 2), jv.I(time.Now().UTC().UnixNano()/1000), rc, m.jTicket(), m.jSealedTicket(), m.jAuthEnc(), m.jSealedAuth())
 			o2 := jv.Err()
 			if p2 {
@@ -239,6 +245,30 @@ func c01(c *Ctx) {
 				o2 = jv.Ok()
 			}
 			c.Case("verify_apreq", in2, o2)
+			// ... and again with the ticket's service name - which nothing protects - rewritten: with a keytab principal
+			// override the key is still found, and it still is the same authenticator presented to the same service
+			recased := append([]string{}, m.req.Ticket.SName.NameString...)
+			if n := len(recased); n > 0 && len(recased[n-1]) > 0 {
+				recased[n-1] = strings.ToUpper(recased[n-1][:1]) + recased[n-1][1:]
+			}
+			for vi, newName := range [][]string{{"HTTP", "renamed.test.gokrb5"}, recased} {
+				m3 := m
+				m3.req.Ticket.SName = types.PrincipalName{NameType: m.req.Ticket.SName.NameType, NameString: newName}
+				req3 := m3.req
+				var ok3 bool
+				var err3 error
+				p3, _ := guard(func() { ok3, _, err3 = service.VerifyAPREQ(&req3, st) })
+				c.Check(!p3 && !ok3, "an accepted request presented again with its unprotected service name rewritten is not accepted", "replay-renamed-accepted", fmt.Sprintf("variant %d %q: %v", vi, newName, err3), inp)
+				in3 := jv.L(jst, projKeytab(s.kt, 2), jv.I(time.Now().UTC().UnixNano()/1000), rc, m3.jTicket(), m.jSealedTicket(), m.jAuthEnc(), m.jSealedAuth())
+				o3 := jv.Err()
+				if p3 {
+					o3 = jv.Panic()
+				} else if ok3 {
+					o3 = jv.Ok()
+				}
+				c.Case("verify_apreq", in3, o3)
+			}
+			c.Count("replay-renamed")
 		}
 	}
 	base := settingsList[16] // 5 min skew, nothing else
